@@ -58,7 +58,13 @@ def tlc(*a, **kw):
 
 def build_server():
     """The shipped `humphrey` binary from /repo's working tree (no verif cfg), in a target dir outside /repo."""
-    tdir = os.path.join(vlib.HARNESS, "target", "server")
+    # One target dir per checkout: with a shared one, cargo finds /repo's artefacts "fresh" after a build from
+    # another checkout (a scratch worktree with a seeded change, VERIF_REPO) and leaves that other checkout's
+    # binary in release/humphrey - a stale binary then raises false alarms on the unchanged tree (DESIGN 9).
+    if os.path.abspath(vlib.REPO) == "/repo":
+        tdir = os.path.join(vlib.HARNESS, "target", "server")
+    else:
+        tdir = os.path.join(vlib.WORK, "target-alt-server")
     os.makedirs(vlib.WORK, exist_ok=True)
     lockf = open(os.path.join(vlib.WORK, "build-server.lock"), "w")
     fcntl.flock(lockf, fcntl.LOCK_EX)
@@ -72,6 +78,10 @@ def build_server():
         fcntl.flock(lockf, fcntl.LOCK_UN)
         lockf.close()
     path = os.path.join(tdir, "release", "humphrey")
+    # make sure release/humphrey is the artefact of THIS build: drop it and let cargo uplift it again
+    if os.path.exists(path):
+        os.remove(path)
+        p = subprocess.run(cmd, cwd=vlib.REPO, env=vlib.cargo_env(), stdout=subprocess.PIPE, stderr=subprocess.STDOUT, text=True)
     if not os.path.exists(path):
         raise vlib.ToolError("no humphrey binary at " + path)
     return path
